@@ -12,9 +12,8 @@ the compilation (this needs `importFreshCache` off: as is, `@import` swaps in an
 (3) while a module's body is running its name is locked, so re-entering it is a loop error
 (C02.cycle_is_loop_error) — there is no second execution before the first one is cached either.
 With file identity as the name (`loadKeyTextual`/`normalizeKeepsEmpty` off) "per name" is
-"per file".  NOT proved: the single global statement "`execLog` has no duplicates" as one
-invariant over whole runs (the three facts are its inductive steps; assembling them needs a
-frame condition on `loading` across nested bodies that did not close in the time box).
+"per file".  The single global statement — "`execLog` has no duplicates" over a whole run — is
+`execLog_nodup` below (invariant `LogInv` carried through the whole interpreter).
 -/
 import RsassModel.Load.LemmasGraph
 namespace C03
@@ -72,6 +71,43 @@ theorem bind_is_identity (q : LoadQuirks) (hq : q.forwardingModuleCopied = false
 theorem module_locked_while_running (name : Str) (s s1 : St) (h : lock name s = some s1) :
     name ∈ s1.loading := by
   rw [(lock_some h).2]; exact List.mem_cons_self ..
+
+/-- **module executed at most once per compilation** (the global statement): with the module
+cache kept across `@import` (`importFreshCache` off — the specification), in every compilation
+that completes, for every finder, the list of names whose body was run as a module has no
+duplicates.  (Invariant `LogInv`: every run name is cached or still locked; proved through the
+whole interpreter in `Load/LemmasGraph.lean`, `execBody_logOK`.)  With file identity as the name
+this is once per file. -/
+theorem execLog_nodup (q : LoadQuirks) (hq : q.importFreshCache = false) (F : Finder) (fuel : Nat)
+    (root : Str) (s : St) (h : compile q F fuel root = .ok s) : s.execLog.Nodup := by
+  unfold compile at h
+  split at h
+  · next s' hs =>
+    cases h
+    have hinv : LogInv ({ loading := [root] } : St) := ⟨List.nodup_nil, fun n hn => by cases hn⟩
+    exact (execBody_logOK q hq F fuel root _ s' hinv hs).1
+  · cases h
+
+/-- … and every one of those modules is cached when the compilation ends: each was run to
+completion exactly once -/
+theorem execLog_all_cached (q : LoadQuirks) (hq : q.importFreshCache = false) (F : Finder) (fuel : Nat)
+    (root : Str) (s : St) (h : compile q F fuel root = .ok s) :
+    ∀ n ∈ s.execLog, ∃ id, s.modules.lookup n = some id := by
+  unfold compile at h
+  split at h
+  · next s' hs =>
+    cases h
+    have hinv : LogInv ({ loading := [root] } : St) := ⟨List.nodup_nil, fun n hn => by cases hn⟩
+    intro n hn
+    rcases (execBody_logOK q hq F fuel root _ s' hinv hs).2 n hn with h | h
+    · cases h
+    · exact h
+  · cases h
+
+/-- the same for the real finder -/
+theorem run_execLog_nodup (q : LoadQuirks) (hq : q.importFreshCache = false) (W : World) (fuel : Nat)
+    (root : Str) (s : St) (h : run q W fuel root = .ok s) : s.execLog.Nodup :=
+  execLog_nodup q hq (fsFinder q W) fuel root s h
 
 /-! ### the code as it is -/
 
